@@ -156,6 +156,18 @@ def check_config(name, o, D, res, viol):
                     res["traces"] += 1
                     if L > 1:
                         res["nontrivial"] += 1
+            # 2b. the SAME real-data buffer refilled in place between two evaluations (a rolling window): the second value must be
+            #     what a fresh object gives on the new content
+            loss = make(name, o, w, f)
+            sim_a, real_a = M[0]
+            buf = real_a.copy()
+            ev(loss, sim_a, buf)
+            buf[...] = M[2][1][:buf.shape[0]] * 1.5 + 0.25
+            got = ev(loss, sim_a, buf)
+            want = ev(make(name, o, w, f), sim_a, buf.copy())
+            res["evaluations"] += 1
+            if not same(got, want, 1e-13):
+                viol("depends-on-earlier-evaluations:" + name, f"{tag}: after the real-data buffer was refilled in place the loss is {got!r}, a fresh object gives {want!r}", dict(case, seq="refill"))
             sim, real = M[1]
             E = sim.shape[0]
             ww = np.ones(D) / D if w is None else np.array(w, dtype=float)
